@@ -1,2 +1,28 @@
-(* C09 (binary half) -- placeholder, statements follow *)
+(* C09 (binary half) -- Skipping a container or value lands exactly after its matching close.
+   Statements only.  balanced_read d (BinLexer): from a position just after an Open, read tokens with
+   read_token, count opens and closes, return the data that follows the matching close.
+   The text half (text TokenReader::skip_container / skip_unquoted_value) is stated separately. *)
 From JV Require Import Bytes Tables BinPrim BufWin BinLexer BinReader.
+From JV.proofs Require Import BinLexProofs BinRoundProofs BinStreamProofs BinSkipProofs.
+Open Scope nat_scope.
+
+(* Lexer::skip_container (via skip_value(OPEN)): for ALL byte strings -- so also for strings, floats
+   and integers whose payload bytes look like OPEN/CLOSE ids, and for rgb blocks, which the skipper
+   walks through as Open U32.. Close -- if token counting reaches the matching close, the skip
+   succeeds and leaves the cursor on exactly the same remaining data (= same byte position) *)
+Theorem C09_bin_lexer_skip_lands : forall d r,
+  balanced_read d = Some r -> skip_container_bytes d = (Ok tt, r).
+Proof. exact lexer_skip_lands. Qed.
+Print Assumptions C09_bin_lexer_skip_lands.
+
+Theorem C09_bin_lexer_skip_value_open : forall l r,
+  balanced_read (lx_data l) = Some r -> lx_skip_value L_OPEN l = (Ok tt, mklx r (lx_orig l)).
+Proof. exact lexer_skip_value_open. Qed.
+Print Assumptions C09_bin_lexer_skip_value_open.
+
+(* non-vacuity: a container body holding a string made of CLOSE ids, an rgb block and a nested container *)
+Example C09_bin_nonvacuous :
+  let body := concat (map write_token
+     [BQuoted [4%N; 0%N; 4%N; 0%N]; BEqual; BRgb (mkrgb 3 4 5 (Some 4%N)); BOpen; BU64 1125912791875587; BClose; BClose; BId 7%N]) in
+  balanced_read body = Some [7%N; 0%N] /\ skip_container_bytes body = (Ok tt, [7%N; 0%N]).
+Proof. vm_compute. split; reflexivity. Qed.
